@@ -750,7 +750,6 @@ func r44RoundingOnlyOnResults(c *core.Ctx, fs []*core.Func) {
 	c.Check(R, "rounding-only-on-results/tms20", fs[0].Decl.Pos(), bad == "" && n >= 5, fmt.Sprintf("%d rounding sites in the addressing functions, each applied to a final coordinate or size", n), "rounding is applied to an intermediate value: "+bad)
 }
 
-
 // r44ToNativeAcceptsFarCorner: ToNative answers for tile indices up to and including the matrix width/height (the
 // corner of tile (width, height) is the far corner of the bounding box) and refuses beyond: the refusal is guarded
 // by tile.X > MatrixWidth and tile.Y > MatrixHeight, strictly.
